@@ -657,11 +657,15 @@ inline model::MLib library(Rng& r, const Cfg& cfg) {
     m.precision = m.unit / ratios[r.below(8)];
     int ncell = (int)r.range(1, cfg.max_cells);
     if (r.chance(0.02)) ncell = 0;  // an empty library is a library too
+    // many small cells: reference numbers, name tables and cell arrays beyond 127 entries
+    bool many = r.chance(0.007);
+    if (many) ncell = (int)r.range(130, 200);
     std::set<std::string> names;
     for (int i = 0; i < ncell; i++) {
         std::string n;
         do {
             n = ident(r, 1, r.chance(0.1) ? 32 : 9);
+            if (r.chance(0.01)) n = ident(r, 126, 140);  // a name whose length needs two bytes in OASIS
         } while (!names.insert(n).second);
         model::MCell cell;
         cell.name = n;
@@ -685,6 +689,12 @@ inline model::MLib library(Rng& r, const Cfg& cfg) {
         int nw = r.chance(0.6) ? (int)r.range(0, cfg.max_elems / 2) : 0;
         int nl = r.chance(0.5) ? (int)r.range(0, cfg.max_elems / 2) : 0;
         int nr = (i + 1 < ncell || !m.ext_cells.empty()) && r.chance(0.7) ? (int)r.range(0, cfg.max_elems / 2) : 0;
+        if (many) {
+            np = (int)r.range(0, 1);
+            nw = r.chance(0.2) ? 1 : 0;
+            nl = 1;  // distinct texts: a text-string table beyond 127 entries
+            nr = (i + 1 < ncell || !m.ext_cells.empty()) ? (int)r.range(0, 2) : 0;
+        }
         for (int k = 0; k < np; k++) {
             bool big = cfg.big_polygons && !big_done && r.chance(0.1);
             cell.polys.push_back(polygon(c, big));
